@@ -95,6 +95,8 @@ func runC04(p *core.Prog, r *core.Report) {
 	c07R3(p, r, "C04.R7")
 	// a layout target: the collector cannot run under the copy and delete children already written (shared with C08.R2)
 	c08R2(p, r, "C04.R8")
+	// an index entry that is a manifest is copied as a manifest, with its children, never as an opaque blob (shared with C03.R5)
+	c03R5(p, r, "C04.R9")
 }
 
 // resolveLit returns the function literal a go statement runs: a literal, or a local variable
